@@ -283,8 +283,43 @@ async fn main(plan: Plan) -> Outcome {
         {
             let mut w = world::world();
             w.restart_node(victim, new_shards);
+            // The restarted node may come back with another sharding algorithm parameter
+            // (same or different shard count).
+            if plan.shards > 0 && tape::chance("c12:restart_msb", 1, 2) {
+                let old = w.cluster.nodes[victim].msb_ignore;
+                w.cluster.nodes[victim].msb_ignore = [0u8, 7, 12][(([0u8, 7, 12].iter().position(|m| *m == old).unwrap_or(0)) + 1 + tape::choose("c12:restart_msb_pick", 2) as usize) % 3];
+                w.probe("restart_with_other_msb_ignore");
+            }
         }
         world::sleep_ns(40 * SEC).await;
+    }
+    // A node is moved to another datacenter and/or rack (it reappears in system.peers /
+    // system.local with the new labels); the client learns of it through a refresh.
+    if plan.dcs > 1 && tape::chance("c12:relabel", 1, 4) {
+        let victim = tape::choose("c12:relabel_victim", plan.nodes as u64) as usize;
+        {
+            let mut w = world::world();
+            let dcs: Vec<String> = {
+                let mut d: Vec<String> = w.cluster.nodes.iter().map(|n| n.dc.clone()).collect();
+                d.sort();
+                d.dedup();
+                d
+            };
+            let cur = w.cluster.nodes[victim].dc.clone();
+            let others: Vec<&String> = dcs.iter().filter(|d| **d != cur).collect();
+            if !others.is_empty() {
+                let nd = others[tape::choose("c12:relabel_dc", others.len() as u64) as usize].clone();
+                w.cluster.nodes[victim].dc = nd;
+                w.cluster.nodes[victim].rack = format!("r{}", 1 + tape::choose("c12:relabel_rack", 2));
+                w.fault(Fault::Topology);
+                w.probe("node_moved_to_other_dc");
+                let ip = w.cluster.nodes[victim].ip;
+                w.broadcast_event("TOPOLOGY_CHANGE", crate::wire::body_event_topology("NEW_NODE", ip, 9042));
+            }
+        }
+        world::sleep_ns(3 * SEC).await;
+        let _ = tokio::time::timeout(Duration::from_secs(120), session.refresh_metadata()).await;
+        world::sleep_ns(20 * SEC).await;
     }
     let mut prepared = Vec::new();
     for ks in KSS {
